@@ -16,7 +16,7 @@ ANCHORS = ["pyoma2.functions.ssi:SSI_multi_setup", "pyoma2.functions.gen:pre_mul
 REQUIRED_MONITORS = ["shared-object history", "truth@PreGER.cov_mm", "truth@PreGER.dat", "truth@SSI_multi_setup", "gain-metamorphic", "split@pre_multisetup(direct)",
                      "split@pre_multisetup(every call made by MultiSetup_PreGER)"]
 ALL_STATES = ["refs listed out of order", "refs differ between setups", "complex shapes", "real shapes", "br=nu+1", "br>nu+1"]
-REQUIRED_STATES = ["refs listed out of order", "refs differ between setups", "br=nu+1", "equal record lengths, different channel counts", "a later setup repeats the first setup's reference records", "two global modes inside each other's default tolerance", "oversampled records, one reference, 3..5 modes", "setup dictionaries with 'mov' before 'ref'"]
+REQUIRED_STATES = ["modes requested in a rotated order", "refs listed out of order", "refs differ between setups", "br=nu+1", "equal record lengths, different channel counts", "a later setup repeats the first setup's reference records", "two global modes inside each other's default tolerance", "oversampled records, one reference, 3..5 modes", "setup dictionaries with 'mov' before 'ref'"]
 RULE = ("A: random global systems (1..5 modes), 2..4 setups, 1..3 references anywhere/any order, 1..4 roving, gains 10^U(-2,2), own record "
         "length and initial condition per setup, br >= nu_ref+1, both methods, through MultiSetup_PreGER+SSIcov_MS/SSIdat_MS and "
         "ssi.SSI_multi_setup; non-trivial = guards hold and >= 2 setups with different gains; B: EVERY channel count 2..6 and EVERY ordered "
@@ -172,14 +172,22 @@ def run_identify(ctx, rng):
             continue
         judge(ctx, f"truth@PreGER.{meth}", r.Lambds[:, o], r.Fn_poles[:, o], r.Xi_poles[:, o], r.Phi_poles[:, o, :], fn, xi, PhiG, lam, tol, "ms")
         res[meth] = r
-        ms.mpe("a", sel_freq=[float(f) for f in fn], order=o, rtol=(5e-2 if rng.random() < 0.5 else 1e-3))  # the default tolerance and a tight one
+        # the modes come back in the order in which they were asked for, whatever that order is (ascending, rotated, shuffled)
+        perm = list(range(m))
+        if m >= 3 and rng.random() < 0.5:
+            sh = int(rng.integers(1, m))
+            perm = perm[sh:] + perm[:sh]
+            ctx.state("modes requested in a rotated order")
+        elif rng.random() < 0.3:
+            perm = [int(x) for x in rng.permutation(m)]
+        ms.mpe("a", sel_freq=[float(fn[k]) for k in perm], order=o, rtol=(5e-2 if rng.random() < 0.5 else 1e-3))  # the default tolerance and a tight one
         R = alg.result
         ctx.ev("mpe@PreGER")
         if ctx.check(np.shape(R.Fn) == (m,) and np.shape(R.Phi) == (ndof, m), "ms:mpe_shape", lambda: f"mpe shapes {np.shape(R.Fn)} {np.shape(R.Phi)}"):
-            for k in range(m):
-                em = 1 - max(gen.mac(R.Phi[:, k], PhiG[:, k]), gen.mac(R.Phi[:, k], np.conj(PhiG[:, k])))
-                ctx.check(abs(R.Fn[k] - fn[k]) / fn[k] <= tol and abs(R.Xi[k] - xi[k]) <= tol and em <= tol, "ms:mpe_accuracy",
-                          lambda: f"mpe mode {k}: f {R.Fn[k]} vs {fn[k]}, xi {R.Xi[k]} vs {xi[k]}, 1-MAC {em:.2e}")
+            for i, k in enumerate(perm):
+                em = 1 - max(gen.mac(R.Phi[:, i], PhiG[:, k]), gen.mac(R.Phi[:, i], np.conj(PhiG[:, k])))
+                ctx.check(abs(R.Fn[i] - fn[k]) / fn[k] <= tol and abs(R.Xi[i] - xi[k]) <= tol and em <= tol, "ms:mpe_accuracy",
+                          lambda: f"mpe request {i} (mode {k}, requests in order {perm}): f {R.Fn[i]} vs {fn[k]}, xi {R.Xi[i]} vs {xi[k]}, 1-MAC {em:.2e}")
     # history: both algorithms on ONE object, run twice; the shared split data must stay untouched and the results exact
     ms = MultiSetup_PreGER(fs=fs, ref_ind=[list(r) for r in reflist], datasets=[d.copy() for d in datasets])
     a1 = SSIcov_MS(name="c", br=br, ordmax=o, method="cov_mm", hc=dict(NEUTRAL))
